@@ -14,7 +14,7 @@ import (
 
 type nullConn struct{}
 
-func (nullConn) ReadFrom(p []byte) (int, net.Addr, error)   { select {} }
+func (nullConn) ReadFrom(p []byte) (int, net.Addr, error)  { select {} }
 func (nullConn) WriteTo(p []byte, a net.Addr) (int, error) { return len(p), nil }
 func (nullConn) Close() error                              { return nil }
 func (nullConn) LocalAddr() net.Addr                       { return nil }
